@@ -21,7 +21,7 @@ process) for the same source; error/panic/crash on a valid case.
 INTERNAL (drift): which id >= 256 a string received; the fallback result outside the documented region (explicit
 empty strings, everything missing); the unreferenced `table name` record; a static font carrying fvar.
 """
-import json, os, hashlib, shutil, threading, time, concurrent.futures
+import json, os, re, hashlib, shutil, threading, time, concurrent.futures
 import common, minifont
 
 WIN = (3, 1, 0x409)
@@ -551,6 +551,30 @@ def nontrivial(x):
     return x["names"] != PLAIN_NAMES or not plain_refs
 
 
+_REPLAY = re.compile(r'<<"REPLAY", "((?:[^"\\]|\\.)*)">>')
+_INIT = re.compile(r"Finished computing initial states: (\d+) distinct state")
+
+
+def extract_cases(res):
+    """All REPLAY payloads of a TLC run.  Several workers print concurrently and two lines may end up on one, so
+    the whole output is scanned (not line by line) and the number of payloads is checked against the number of
+    next-state transitions TLC reports (one per case)."""
+    cases = []
+    for m in _REPLAY.finditer(res.out):
+        raw = m.group(1)
+        try:
+            cases.append(json.loads(json.loads('"%s"' % raw)))
+        except Exception as e:  # noqa: BLE001
+            raise common.ToolError("cannot parse a REPLAY payload (%s): %s" % (e, raw[:200]))
+    m = _INIT.search(res.out)
+    if not m or not cases:
+        raise common.ToolError("TLC emitted no cases")
+    expected = res.generated - int(m.group(1))
+    if len(cases) != expected:
+        raise common.ToolError("TLC made %d transitions but %d REPLAY payloads were recovered" % (expected, len(cases)))
+    return cases
+
+
 def main(ctx):
     common.build_harness()
     r = common.vh(["names", "--version"])
@@ -587,9 +611,7 @@ def main(ctx):
             res.violated, common.tlc_trace_text(res.out, 60)))
     if res.error or res.timed_out or not res.complete:
         raise common.ToolError("TLC did not finish on %s: %s" % (cfg, res.error or ("timeout" if res.timed_out else "?")))
-    cases = common.replay_lines(res.out)
-    if not cases:
-        raise common.ToolError("TLC emitted no cases")
+    cases = extract_cases(res)
     seen = {}
     for x in cases:
         x["id"] = case_id(x)
